@@ -181,7 +181,8 @@ def typeChain (tds : List Typedef) : Nat → String → Except Err (List Typedef
       let (ch, b) ← typeChain tds fuel td.typ.ref
       .ok (td :: ch, b)
 
-def toBytes (s : String) : Bytes := s.toUTF8.toList
+/-- the bytes of an ASCII argument (kernel-reducible, unlike `toUTF8`) -/
+def toBytes (s : String) : Bytes := s.toList.map fun c => c.toNat.toUInt8
 
 /-- one restriction step: `lys_compile_type_range` on top of the restriction compiled so far -/
 def restrStep (cfg : Cfg) (base : String) (cur : Option (List Range.Part)) (r : Option String) : Except Err (Option (List Range.Part)) :=
@@ -267,6 +268,7 @@ structure St where
   augs : List TAug := []
   devs : List TDev := []
   next : Nat := 0
+  used : List String := []       -- groupings with LYS_USED_GRP
   deriving Inhabited
 
 /-- info about the compiled parent that children look at -/
@@ -284,6 +286,7 @@ structure Cx where
   parent : Option PInfo := none
   disabled : Bool := false       -- LYS_COMPILE_DISABLED
   stack : List String := []      -- ctx->groupings
+  grp : Bool := false            -- LYS_COMPILE_GROUPING (validation of an unused grouping)
   deriving Inhabited
 
 /-! ### refine / deviate application on the parsed node copy -/
@@ -538,7 +541,8 @@ def compileNode (env : Env) : Nat → St → Cx → Nat → PNode → Except Err
       if cx.stack.contains u.grouping then .error .fail else
       let uid0 := st.next
       -- lys_precompile_uses_augments_refines: augments first, then refines
-      let st := { st with next := uid0 + 1 + augs.length,
+      let st := { st with used := if st.used.contains u.grouping then st.used else u.grouping :: st.used,
+                          next := uid0 + 1 + augs.length,
                           uaugs := st.uaugs ++ augs.zipIdx.map fun (a, k) =>
                             { uid := uid0 + 1 + k, ctx := cx.ppath, nodeid := a.1.path.map (·.2), aug := a, usesId := uid0 } }
       let st := addRefines st cx.ppath uid0 u.refines
@@ -546,7 +550,7 @@ def compileNode (env : Env) : Nat → St → Cx → Nat → PNode → Except Err
       match compileStatus u.status inh pst with
       | .error e => .error e
       | .ok uflags =>
-        let en := enabled env.sch.features u.iffs
+        let en := enabled env.sch.features u.iffs || cx.grp
         let udis := !en && !cx.disabled
         let cx' := { cx with disabled := cx.disabled || !en, stack := u.grouping :: cx.stack }
         match compileNodes env fuel st cx' uflags body with
@@ -565,7 +569,8 @@ def compileNode (env : Env) : Nat → St → Cx → Nat → PNode → Except Err
     | .error e => .error e
     | .ok (devs, p, notSupp) =>
       let st := { st with rfns := rfns, devs := devs }
-      let en := enabled env.sch.features p.iffs
+      let en := enabled env.sch.features p.iffs || cx.grp
+      let notSupp := notSupp && !cx.grp
       let selfDis := (notSupp || !en) && !cx.disabled
       let dis := cx.disabled || notSupp || !en
       match compileConfig cx.parent (if p.kind == .case then none else p.config), compileStatus p.status inh (match cx.parent with | some pi => pi.status | none => 0) with
@@ -585,7 +590,7 @@ def compileNode (env : Env) : Nat → St → Cx → Nat → PNode → Except Err
             if !p.dflts.isEmpty && mand then .error .fail else
             -- lys_compile_unres_leaf_dlft: the type's default is ignored for a mandatory leaf; values are checked unless disabled
             let dfl := if !p.dflts.isEmpty then p.dflts else if mand then [] else tdf
-            if !dis && !(dfl.all (dfltValid t)) then .error .fail else
+            if !dis && !cx.grp && !(dfl.all (dfltValid t)) then .error .fail else
             .ok (st, [.mk { d0 with mand := mand, dflts := dfl, typ := some t, units := units } []])
         | .leaflist =>
           match mkLeafType env p with
@@ -595,8 +600,8 @@ def compileNode (env : Env) : Nat → St → Cx → Nat → PNode → Except Err
             if !p.dflts.isEmpty && mand then .error .fail else
             if p.max != 0 && p.min > p.max then .error .fail else
             let dfl := if !p.dflts.isEmpty then p.dflts else if mand then [] else tdf
-            if !dis && !(dfl.all (dfltValid t)) then .error .fail else
-            if !dis && cfgv && !p.dflts.isEmpty && !distinctStr p.dflts then .error .fail else
+            if !dis && !cx.grp && !(dfl.all (dfltValid t)) then .error .fail else
+            if !dis && !cx.grp && cfgv && !p.dflts.isEmpty && !distinctStr p.dflts then .error .fail else
             .ok (st, [.mk { d0 with mand := mand, dflts := dfl, typ := some t, units := units, min := p.min, max := p.max } []])
         | .container =>
           match compileNodes env fuel st cxk 0 kids with
@@ -703,7 +708,7 @@ def compileAug (env : Env) : Nat → St → Cx → PAug → Bool → List CNode 
   | 0, _, _, _, _, _ => .error .fuel
   | fuel + 1, st, cx, (h, kids), isUses, acc =>
     let tgt := cx.parent.getD default
-    let en := enabled env.sch.features h.iffs
+    let en := enabled env.sch.features h.iffs || cx.grp
     let adis := !en && !cx.disabled
     let cx' := { cx with disabled := cx.disabled || !en }
     let allowMand := h.whens > 0 || tgt.kind == .choice || cx.cur == tgt.mod
@@ -792,12 +797,26 @@ def fuelFor (sch : Schema) : Nat :=
              sch.groupings.foldl (fun a g => a + sizePs 1000 g.2) 0
   (txt + 4) * (sch.groupings.length + 2) * 4 + 64
 
+def checkGroupings (env : Env) (fuel : Nat) (st : St) (m : String) : List (String × List PNode) → Except Err St
+  | [] => .ok st
+  | (g, _) :: rest =>
+    if st.used.contains g then checkGroupings env fuel st m rest else
+    let fake : PInfo := { mod := m, name := "fake", kind := .container, config := true, status := 1 }
+    match compileNode env fuel st { cur := m, ppath := [(m, "fake")], parent := some fake, grp := true } 0 (.uses { grouping := g } []) with
+    | .error e => .error e
+    | .ok (st, cs) =>
+      match connectAll [] m cs with
+      | .error e => .error e
+      | .ok _ => checkGroupings env fuel st m rest
+
 /-- `lys_compile` of one module, before the removal of the disabled nodes -/
 def compileModuleRaw (env : Env) (fuel : Nat) (m : Module) (augBy devBy : List String) : Except Err (List CNode) := do
   let devs ← ownDevs env.sch m.name devBy
   let st : St := { augs := ownAugs env.sch m.name augBy, devs := devs }
   let (st, cs) ← compileNodes env fuel st { cur := m.name } 0 m.data
   let top ← connectAll [] m.name cs
+  -- the groupings nobody instantiated are validated in a fake container (`lys_compile_grouping`)
+  let st ← if (env.sch.mods.head?.map (·.name)) == some m.name then checkGroupings env fuel st m.name env.sch.groupings else pure st
   -- lys_compile_unres_mod: every augment and deviation must have found its target
   if !st.augs.isEmpty || !st.devs.isEmpty then .error .fail else .ok top
 
